@@ -137,6 +137,11 @@ const PROBES: &[Probe] = &[
         src: "#[derive(Clone, PartialEq)]\nstruct Wrap(Cell<i64>);\nfn main() {\n    let _t = roto::Type::clone::<roto::Val<Wrap>>(\"Wrap\", \"\", location!()).unwrap();\n}\n",
     },
     Probe {
+        name: "fnmut-closure",
+        must_reject: true,
+        src: "fn main() {\n    let mut total = 0u64;\n    let func = Function::new(\"add\", \"\", vec![\"x\"], move |x: u64| -> u64 { total += x; total }, location!()).unwrap();\n    let _rt = Runtime::from_lib(func).unwrap();\n}\n",
+    },
+    Probe {
         name: "cell-inside-constant",
         must_reject: true,
         src: "#[derive(Clone, PartialEq)]\nstruct Wrap(Cell<i64>);\nfn main() {\n    let _c = roto::Constant::new(\"X\", \"\", roto::Val(Wrap(Cell::new(1))), location!()).unwrap();\n}\n",
@@ -219,7 +224,7 @@ fn run_probe(i: usize) -> Outcome {
         // an unrelated compile error (e.g. API drift) must not pass silently
         return Outcome::fail(format!("control-probe-rejected:{}", p.name), format!("rustc rejects a control program that should be accepted:\n{stderr}\n{}", p.src));
     }
-    if !accepted && !(stderr.contains("cannot be shared between threads safely") || stderr.contains("cannot be sent between threads safely")) {
+    if !accepted && !(stderr.contains("cannot be shared between threads safely") || stderr.contains("cannot be sent between threads safely") || stderr.contains("only implements `FnMut`")) {
         return Outcome::fail(format!("probe-rejected-for-another-reason:{}", p.name), format!("{stderr}\n{}", p.src));
     }
     o
@@ -246,6 +251,9 @@ impl WorkerState for W {
         }
         if case.get(2).and_then(|c| c.first()).map(|b| b % 8 == 2).unwrap_or(false) {
             return self.compile_storm(case, render);
+        }
+        if case.get(2).and_then(|c| c.first()).map(|b| b % 8 == 6).unwrap_or(false) {
+            return self.constants_hammer(case, render);
         }
         let empty: Vec<u8> = Vec::new();
         let prog = self.program(case.first().unwrap_or(&empty), case.get(1).unwrap_or(&empty));
@@ -383,6 +391,85 @@ impl WorkerState for W {
 }
 
 impl W {
+    /// (e) many calls from several threads of functions that only read script constants of
+    /// reference-counted and aggregate types: every call copies (clones) from storage that all
+    /// threads share
+    fn constants_hammer(&mut self, case: &Case, render: bool) -> Outcome {
+        const SRC: &str = "record Conf {\n    name: String,\n    n: u64,\n    tags: List[String],\n}\nconst GREETING: String = \"hello, \";\nconst NAMES: List[String] = [\"a\", \"bb\", \"ccc\"];\nconst CONF: Conf = Conf { name: \"conf\", n: 7, tags: [\"x\", \"y\"] };\nfn f(name: String) -> String {\n    GREETING + name\n}\nfn g(i: u64) -> String {\n    match NAMES.get(i) {\n        Some(s) => s,\n        None => \"none\",\n    }\n}\nfn h(x: u64) -> u64 {\n    let c = CONF;\n    let d = c;\n    if d.name == \"conf\" && d.tags == [\"x\", \"y\"] { d.n + x } else { 0 }\n}\n";
+        let empty: Vec<u8> = Vec::new();
+        let ctl = case.get(2).unwrap_or(&empty);
+        let mut c = Choices::new(ctl.get(1..).unwrap_or(&[]));
+        let n_threads = 3 + c.below(6);
+        let calls = 5_000 + c.below(8) * 5_000;
+        let mut pkg = match host::compile(&self.rt, SRC) {
+            Ok(p) => p,
+            Err(e) => return Outcome::discard(format!("constants script rejected: {e}")),
+        };
+        let f = pkg.get_function::<fn(roto::RotoString) -> roto::RotoString>("f").expect("f");
+        let g = pkg.get_function::<fn(u64) -> roto::RotoString>("g").expect("g");
+        let h = pkg.get_function::<fn(u64) -> u64>("h").expect("h");
+        let barrier = Arc::new(Barrier::new(n_threads));
+        let mut hs = Vec::new();
+        for t in 0..n_threads {
+            let (f, g, h, barrier) = (f.clone(), g.clone(), h.clone(), barrier.clone());
+            hs.push(std::thread::spawn(move || -> Result<(), String> {
+                barrier.wait();
+                for i in 0..calls {
+                    match i % 3 {
+                        0 => {
+                            let name = format!("t{t}-{i}");
+                            let got = f.call(roto::RotoString::from(name.as_str())).to_string();
+                            if got != format!("hello, {name}") {
+                                return Err(format!("thread {t}, call {i}: f({name:?}) returned {got:?}"));
+                            }
+                        }
+                        1 => {
+                            let k = (i / 3) as u64 % 4;
+                            let got = g.call(k).to_string();
+                            let want = ["a", "bb", "ccc", "none"][k as usize];
+                            if got != want {
+                                return Err(format!("thread {t}, call {i}: g({k}) returned {got:?}, expected {want:?}"));
+                            }
+                        }
+                        _ => {
+                            let got = h.call(i as u64);
+                            if got != 7 + i as u64 {
+                                return Err(format!("thread {t}, call {i}: h({i}) returned {got}, expected {}", 7 + i as u64));
+                            }
+                        }
+                    }
+                }
+                Ok(())
+            }));
+        }
+        let mut err = None;
+        for hnd in hs {
+            match hnd.join() {
+                Ok(Ok(())) => {}
+                Ok(Err(e)) => err = Some(e),
+                Err(_) => err = Some("a thread panicked".to_string()),
+            }
+        }
+        crate::worker::take_panic();
+        let text = format!("constants hammer: {n_threads} threads x {calls} calls of functions that read String / List / record constants\n{SRC}");
+        if let Some(e) = err {
+            return Outcome::fail("constants-hammer:wrong-result", format!("{e}\n{text}"));
+        }
+        // once more single-threaded: the constants must be what they were
+        if f.call(roto::RotoString::from("z")).to_string() != "hello, z" || g.call(1).to_string() != "bb" || h.call(1) != 8 {
+            return Outcome::fail("constants-hammer:constant-changed", format!("after the threads finished the constants no longer have their values\n{text}"));
+        }
+        let mut o = Outcome::pass();
+        o.evals = (n_threads * calls) as u64;
+        o.nontrivial = true;
+        o.classes.push("constants-hammer".into());
+        o.hash = fnv(format!("{n_threads}x{calls}").as_bytes()) ^ fnv(&case.concat());
+        if render {
+            o.render = Some(text);
+        }
+        o
+    }
+
     /// (d) many threads compile, call and drop packages of one runtime whose registered closures
     /// and constants hold drop-tracked values: results must be right, nothing may be released
     /// while the runtime is alive and everything exactly once after it was dropped
@@ -560,7 +647,7 @@ impl Prop for C12P {
         "C12"
     }
     fn rule(&self) -> String {
-        "(a) stress: generated programs of the ownership profile (strings, lists, records, tracked host values, host calls); 2-8 threads released by a barrier make 50-200 calls each on clones of one handle with rotating input vectors while 0-2 further threads compile the same script, get the function and drop package and handle; oracle: every call returns the single-threaded result and produces the single-threaded host-call log, tracked values balance after all threads joined, no crash (worker isolation). Non-trivial: at least two calling threads overlapped in time (start/end stamps) and the function allocates or calls a host function. (c) one case in four: the built-in catalogue of C17 (strings, views, lists incl. join, numbers, addresses) called from 2-4 pool threads at once, each with its own package, identical or different argument streams, every call compared with the documented meaning; (d) one case in eight: 3-8 threads x 10-50 cycles of compile / get_function / clone / drop package / call / drop handle on one runtime whose registered closures and constants hold drop-tracked values: results right, nothing released while the runtime lives, everything released exactly once afterwards; (b) ten rustc probes (Cell and RefCell captures shared through scoped threads or a cloned handle must be rejected, Rc control must be rejected, Atomic / Mutex / plain fn controls must be accepted), type-checked against the harness's libroto; distinct by program text / probe".into()
+        "(a) stress: generated programs of the ownership profile (strings, lists, records, tracked host values, host calls); 2-8 threads released by a barrier make 50-200 calls each on clones of one handle with rotating input vectors while 0-2 further threads compile the same script, get the function and drop package and handle; oracle: every call returns the single-threaded result and produces the single-threaded host-call log, tracked values balance after all threads joined, no crash (worker isolation). Non-trivial: at least two calling threads overlapped in time (start/end stamps) and the function allocates or calls a host function. (c) one case in four: the built-in catalogue of C17 (strings, views, lists incl. join, numbers, addresses) called from 2-4 pool threads at once, each with its own package, identical or different argument streams, every call compared with the documented meaning; (e) one case in eight: 3-8 threads x 5 000-40 000 calls of functions that only read String / List / record script constants (every call clones from storage all threads share); (d) one case in eight: 3-8 threads x 10-50 cycles of compile / get_function / clone / drop package / call / drop handle on one runtime whose registered closures and constants hold drop-tracked values: results right, nothing released while the runtime lives, everything released exactly once afterwards; (b) eleven rustc probes (Cell and RefCell captures shared through scoped threads or a cloned handle must be rejected, Rc control must be rejected, Atomic / Mutex / plain fn controls must be accepted), type-checked against the harness's libroto; distinct by program text / probe".into()
     }
     fn assumptions(&self) -> Vec<String> {
         vec![
